@@ -595,7 +595,6 @@ package oj
 //@     invariant [C01 C03 C09 sim] $k >= 0 ==> EqButOff(spec.Run(qi, S, base+o1+$k), R1) && spec.Run(qi, S, base+o1+$k).Off == base+o1+$k
 //@     use spec.Run.unfold(qi, S, base+o1+$k+1)
 
-
 //@ func (*Tokenizer).handleNum
 //@   requires gen.NumInv(t.num) && t.handler != nil
 //@   modifies t.num.BigBuf, heap(t.num.BigBuf)
